@@ -57,13 +57,747 @@ fn oracle(case: &str, obs: &str) -> String {
     "ok".into()
 }
 
+
+// =================================================================================================
+// The `sc` family (extension round): ONE structured simple command — every part of it (words,
+// redirections, assignments, target of every kind, body of the built-in) succeeding or failing on
+// its own — in the contexts that decide whether errexit applies, read by the non-interactive or the
+// interactive read-eval loop, with an EXIT action.  Model: lean/YashModel/Errexit/Model.lean
+// (`execSimple`, `readEvalLoop`, `runShellSc`); grammar of the case line: Errexit/ScDriver.lean.
+// Observation: `trace=… div=<result of the read-eval loop> pre=<$? before the EXIT trap> status=<n>`.
+// =================================================================================================
+mod sc {
+    use std::cell::{Cell, RefCell};
+    use std::ops::ControlFlow::{Break, Continue};
+    use std::rc::Rc;
+    use yash_cli::startup::args::{InitFile, Run, Source, Work};
+    use yash_cli::startup::configure_environment;
+    use yash_cli::startup::input::prepare_input;
+    use yash_env::Env;
+    use yash_env::builtin::{Builtin, Type};
+    use yash_env::semantics::{Divert, ExitStatus, Field};
+    use yash_env::source::pretty::{Report, ReportType};
+    use yash_env::system::r#virtual::{FileBody, Inode, VirtualSystem};
+    use yash_env::system::{Concurrent, Mode};
+    use yash_env::variable::Scope;
+    use yash_semantics::trap::run_exit_trap;
+    use yash_semantics::{interactive_read_eval_loop, read_eval_loop};
+    use yverif::proto::dec_str;
+    use yverif::rng::Rng;
+    use yverif::shell::{BuiltinFuture, VEnv, probe_builtins, write_file};
+
+    #[derive(Clone, Debug)]
+    pub enum Words { Ok, Cs(u32), Err }
+    #[derive(Clone, Debug)]
+    pub enum Redirs { None, Ok, Cs(u32), Err, XErr }
+    #[derive(Clone, Debug)]
+    pub enum Assigns { None, Ok, Cs(u32), Err }
+    #[derive(Clone, Debug)]
+    pub enum Body {
+        Res(u32), Resd(u32, &'static str), Rep(u32), Probe(u32), Cmd(Box<Body>), Eval(Box<Simple>), EvalSyn,
+        DotMissing, Dot(Box<Simple>), DotSyn, DotIoErr,
+    }
+    #[derive(Clone, Debug)]
+    pub enum Target { Absent, Ext(u32), Fn(&'static str, u32), Bi(&'static str, Body) }
+    #[derive(Clone, Debug)]
+    pub struct Simple { pub w: Words, pub t: Target, pub r: Redirs, pub a: Assigns }
+    #[derive(Clone, Debug)]
+    pub enum Stmt {
+        Plain(Simple), If(Simple, u32, u32), Neg(Simple), And(Simple, u32), Or(Simple, u32), Sub(Simple, u32),
+        Grp(Redirs, u32),
+    }
+    #[derive(Clone, Debug)]
+    pub enum Line { Cmds(Vec<Stmt>), SynErr }
+    #[derive(Clone, Debug)]
+    pub struct Case { pub seed: u64, pub interactive: bool, pub errexit: bool, pub trap: Option<Vec<Stmt>>, pub lines: Vec<Line> }
+
+    // ---------------------------------------------------------------------------------------------
+    // S-expression writer
+
+    fn sx_words(w: &Words) -> String {
+        match w { Words::Ok => "ok".into(), Words::Cs(n) => format!("(cs {n})"), Words::Err => "err".into() }
+    }
+    fn sx_redirs(r: &Redirs) -> String {
+        match r {
+            Redirs::None => "none".into(), Redirs::Ok => "ok".into(), Redirs::Cs(n) => format!("(cs {n})"),
+            Redirs::Err => "err".into(), Redirs::XErr => "xerr".into(),
+        }
+    }
+    fn sx_assigns(a: &Assigns) -> String {
+        match a {
+            Assigns::None => "none".into(), Assigns::Ok => "ok".into(), Assigns::Cs(n) => format!("(cs {n})"),
+            Assigns::Err => "err".into(),
+        }
+    }
+    fn sx_body(b: &Body) -> String {
+        match b {
+            Body::Res(n) => format!("(res {n})"),
+            Body::Resd(n, d) => format!("(resd {n} {d})"),
+            Body::Rep(n) => format!("(rep {n})"),
+            Body::Probe(m) => format!("(probe {m})"),
+            Body::Cmd(b) => format!("(cmd {})", sx_body(b)),
+            Body::Eval(c) => format!("(eval {})", sx_simple(c)),
+            Body::EvalSyn => "evalsyn".into(),
+            Body::DotMissing => "dotmissing".into(),
+            Body::Dot(c) => format!("(dot {})", sx_simple(c)),
+            Body::DotSyn => "dotsyn".into(),
+            Body::DotIoErr => "dotioerr".into(),
+        }
+    }
+    fn sx_target(t: &Target) -> String {
+        match t {
+            Target::Absent => "absent".into(),
+            Target::Ext(n) => format!("(ext {n})"),
+            Target::Fn(k, n) => format!("(fn {k} {n})"),
+            Target::Bi(ty, b) => format!("(bi {ty} {})", sx_body(b)),
+        }
+    }
+    pub fn sx_simple(c: &Simple) -> String {
+        format!("(s {} {} {} {})", sx_words(&c.w), sx_target(&c.t), sx_redirs(&c.r), sx_assigns(&c.a))
+    }
+    fn sx_stmt(s: &Stmt) -> String {
+        match s {
+            Stmt::Plain(c) => format!("(plain {})", sx_simple(c)),
+            Stmt::If(c, a, b) => format!("(if {} {a} {b})", sx_simple(c)),
+            Stmt::Neg(c) => format!("(neg {})", sx_simple(c)),
+            Stmt::And(c, m) => format!("(and {} {m})", sx_simple(c)),
+            Stmt::Or(c, m) => format!("(or {} {m})", sx_simple(c)),
+            Stmt::Sub(c, m) => format!("(sub {} {m})", sx_simple(c)),
+            Stmt::Grp(r, m) => format!("(grp {} {m})", sx_redirs(r)),
+        }
+    }
+    pub fn sx_case(c: &Case) -> String {
+        let trap = match &c.trap {
+            None => "-".to_string(),
+            Some(v) => format!("({})", v.iter().map(sx_stmt).collect::<Vec<_>>().join(" ")),
+        };
+        let mut out = format!("sc {} ({} {} {})", c.seed, c.interactive as u8, c.errexit as u8, trap);
+        for l in &c.lines {
+            match l {
+                Line::SynErr => out.push_str(" (synerr)"),
+                Line::Cmds(v) => {
+                    out.push_str(" (L");
+                    for s in v {
+                        out.push(' ');
+                        out.push_str(&sx_stmt(s));
+                    }
+                    out.push(')');
+                }
+            }
+        }
+        out
+    }
+
+    // ---------------------------------------------------------------------------------------------
+    // S-expression reader (replay / corpus)
+
+    #[derive(Debug)]
+    enum Sx { A(String), L(Vec<Sx>) }
+    fn tokenize(s: &str) -> Vec<String> {
+        let mut out = vec![];
+        let mut cur = String::new();
+        for ch in s.chars() {
+            if ch == '(' || ch == ')' || ch == ' ' {
+                if !cur.is_empty() { out.push(std::mem::take(&mut cur)); }
+                if ch != ' ' { out.push(ch.to_string()); }
+            } else { cur.push(ch); }
+        }
+        if !cur.is_empty() { out.push(cur); }
+        out
+    }
+    fn parse_sx(t: &[String], i: &mut usize) -> Option<Sx> {
+        let tok = t.get(*i)?;
+        *i += 1;
+        if tok == "(" {
+            let mut v = vec![];
+            loop {
+                if t.get(*i)? == ")" { *i += 1; return Some(Sx::L(v)); }
+                v.push(parse_sx(t, i)?);
+            }
+        } else if tok == ")" { None } else { Some(Sx::A(tok.clone())) }
+    }
+    fn num(x: &Sx) -> Option<u32> { if let Sx::A(a) = x { a.parse().ok() } else { None } }
+    fn atom(x: &Sx) -> Option<&str> { if let Sx::A(a) = x { Some(a) } else { None } }
+    fn head(x: &Sx) -> Option<(&str, &[Sx])> {
+        if let Sx::L(v) = x { Some((atom(v.first()?)?, &v[1..])) } else { None }
+    }
+    fn stat(s: &str, table: &[&'static str]) -> Option<&'static str> { table.iter().copied().find(|t| *t == s) }
+    fn to_words(x: &Sx) -> Option<Words> {
+        match x {
+            Sx::A(a) if a == "ok" => Some(Words::Ok),
+            Sx::A(a) if a == "err" => Some(Words::Err),
+            _ => { let (h, r) = head(x)?; if h == "cs" && r.len() == 1 { Some(Words::Cs(num(&r[0])?)) } else { None } }
+        }
+    }
+    fn to_redirs(x: &Sx) -> Option<Redirs> {
+        match x {
+            Sx::A(a) => match a.as_str() { "none" => Some(Redirs::None), "ok" => Some(Redirs::Ok), "err" => Some(Redirs::Err), "xerr" => Some(Redirs::XErr), _ => None },
+            _ => { let (h, r) = head(x)?; if h == "cs" && r.len() == 1 { Some(Redirs::Cs(num(&r[0])?)) } else { None } }
+        }
+    }
+    fn to_assigns(x: &Sx) -> Option<Assigns> {
+        match x {
+            Sx::A(a) => match a.as_str() { "none" => Some(Assigns::None), "ok" => Some(Assigns::Ok), "err" => Some(Assigns::Err), _ => None },
+            _ => { let (h, r) = head(x)?; if h == "cs" && r.len() == 1 { Some(Assigns::Cs(num(&r[0])?)) } else { None } }
+        }
+    }
+    fn to_body(x: &Sx) -> Option<Body> {
+        if let Sx::A(a) = x {
+            return match a.as_str() { "evalsyn" => Some(Body::EvalSyn), "dotmissing" => Some(Body::DotMissing), "dotsyn" => Some(Body::DotSyn), "dotioerr" => Some(Body::DotIoErr), _ => None };
+        }
+        let (h, r) = head(x)?;
+        match (h, r.len()) {
+            ("res", 1) => Some(Body::Res(num(&r[0])?)),
+            ("resd", 2) => Some(Body::Resd(num(&r[0])?, stat(atom(&r[1])?, &["abort", "exit"])?)),
+            ("rep", 1) => Some(Body::Rep(num(&r[0])?)),
+            ("probe", 1) => Some(Body::Probe(num(&r[0])?)),
+            ("cmd", 1) => Some(Body::Cmd(Box::new(to_body(&r[0])?))),
+            ("eval", 1) => Some(Body::Eval(Box::new(to_simple(&r[0])?))),
+            ("dot", 1) => Some(Body::Dot(Box::new(to_simple(&r[0])?))),
+            _ => None,
+        }
+    }
+    fn to_target(x: &Sx) -> Option<Target> {
+        if let Sx::A(a) = x { return if a == "absent" { Some(Target::Absent) } else { None }; }
+        let (h, r) = head(x)?;
+        match (h, r.len()) {
+            ("ext", 1) => Some(Target::Ext(num(&r[0])?)),
+            ("fn", 2) => Some(Target::Fn(stat(atom(&r[0])?, &["st", "ret"])?, num(&r[1])?)),
+            ("bi", 2) => Some(Target::Bi(stat(atom(&r[0])?, &["sp", "ma", "el", "ex", "su"])?, to_body(&r[1])?)),
+            _ => None,
+        }
+    }
+    fn to_simple(x: &Sx) -> Option<Simple> {
+        let (h, r) = head(x)?;
+        if h != "s" || r.len() != 4 { return None; }
+        Some(Simple { w: to_words(&r[0])?, t: to_target(&r[1])?, r: to_redirs(&r[2])?, a: to_assigns(&r[3])? })
+    }
+    fn to_stmt(x: &Sx) -> Option<Stmt> {
+        let (h, r) = head(x)?;
+        match (h, r.len()) {
+            ("plain", 1) => Some(Stmt::Plain(to_simple(&r[0])?)),
+            ("if", 3) => Some(Stmt::If(to_simple(&r[0])?, num(&r[1])?, num(&r[2])?)),
+            ("neg", 1) => Some(Stmt::Neg(to_simple(&r[0])?)),
+            ("and", 2) => Some(Stmt::And(to_simple(&r[0])?, num(&r[1])?)),
+            ("or", 2) => Some(Stmt::Or(to_simple(&r[0])?, num(&r[1])?)),
+            ("sub", 2) => Some(Stmt::Sub(to_simple(&r[0])?, num(&r[1])?)),
+            ("grp", 2) => Some(Stmt::Grp(to_redirs(&r[0])?, num(&r[1])?)),
+            _ => None,
+        }
+    }
+    pub fn parse_case(case: &str) -> Option<Case> {
+        let t = tokenize(case);
+        if t.first()? != "sc" { return None; }
+        let seed: u64 = t.get(1)?.parse().ok()?;
+        let mut i = 2;
+        let flags = parse_sx(&t, &mut i)?;
+        let Sx::L(f) = &flags else { return None };
+        if f.len() != 3 { return None; }
+        let trap = match &f[2] {
+            Sx::A(a) if a == "-" => None,
+            Sx::L(v) => Some(v.iter().map(to_stmt).collect::<Option<Vec<_>>>()?),
+            _ => return None,
+        };
+        let mut lines = vec![];
+        while i < t.len() {
+            let x = parse_sx(&t, &mut i)?;
+            let (h, r) = head(&x)?;
+            match h {
+                "synerr" => lines.push(Line::SynErr),
+                "L" => lines.push(Line::Cmds(r.iter().map(to_stmt).collect::<Option<Vec<_>>>()?)),
+                _ => return None,
+            }
+        }
+        Some(Case { seed, interactive: num(&f[0])? != 0, errexit: num(&f[1])? != 0, trap, lines })
+    }
+
+    // ---------------------------------------------------------------------------------------------
+    // renderer: shell text (+ the files the `.` built-in reads)
+
+    pub struct Render { rng: Rng, pub files: Vec<(String, String)> }
+
+    impl Render {
+        fn pick<'a>(&mut self, xs: &[&'a str]) -> &'a str { xs[self.rng.below(xs.len())] }
+
+        /// command name and arguments of a built-in body of type `ty` (`wrapped`: under `command`)
+        fn body(&mut self, ty: &str, b: &Body) -> String {
+            match b {
+                Body::Probe(m) => format!("probe {m}"),
+                Body::Cmd(inner) => format!("command {}", self.body("sp", inner)),
+                Body::Eval(c) => format!("eval '{}'", self.simple(c)),
+                Body::EvalSyn => format!("eval \"{}\"", self.pick(&["fi", "if", ")", "st 0 &&", "{ st 0"])),
+                Body::DotMissing => {
+                    let f = self.pick(&[". ./missing_file", ". missing_in_path", "source ./missing_file", ". /nonexistent/dir/file", "source missing_in_path"]);
+                    f.to_string()
+                }
+                Body::Dot(c) => {
+                    let text = self.simple(c);
+                    let path = format!("/tmp/dot{}", self.files.len());
+                    self.files.push((path.clone(), format!("{text}\n")));
+                    format!("{} {path}", self.pick(&[".", "source"]))
+                }
+                Body::DotIoErr => self.pick(&[". /tmp", "source /tmp", ". /bin"]).to_string(),
+                Body::DotSyn => {
+                    let path = format!("/tmp/dot{}", self.files.len());
+                    let bad = self.pick(&["fi", "if", ")", "st 0 &&"]);
+                    self.files.push((path.clone(), format!("{bad}\n")));
+                    format!(". {path}")
+                }
+                Body::Res(n) => {
+                    if ty == "sp" && *n == 0 && self.rng.chance(1, 2) { ":".into() }
+                    else if ty == "sp" && *n == 1 && self.rng.chance(1, 2) { "trap - NO_SUCH_SIGNAL".into() }
+                    else if ty == "ma" && self.rng.chance(1, 2) { format!("st {n}") }
+                    else { format!("b_{ty} res {n}") }
+                }
+                Body::Resd(n, d) => {
+                    if *d == "abort" && *n == 127 {
+                        self.pick(&["exec no_such_command_xyz", "exec /nonexistent/cmd"]).to_string()
+                    } else { format!("b_{ty} resd {n} {d}") }
+                }
+                Body::Rep(n) => {
+                    if ty == "sp" && *n == 1 && self.rng.chance(2, 3) {
+                        self.pick(&["shift 99", "break", "continue", "readonly ro=2", "export ro=2", "unset ro", "unset -v ro"]).to_string()
+                    } else if ty == "sp" && *n == 2 && self.rng.chance(2, 3) {
+                        self.pick(&["set -o no_such_option", "return x", "return 1 2", "exit x", "exit 1 2", "break 0", "continue x",
+                                    "times x", "unset -x", "export -x", "readonly -x", "exec -x", "shift x", "trap -x", "eval -x", ". -x",
+                                    "shift 1 2"]).to_string()
+                    } else if ty == "ma" && *n == 2 && self.rng.chance(1, 3) {
+                        self.pick(&["alias -x", "getopts", "cd /nonexistent/dir"]).to_string()
+                    } else { format!("b_{ty} rep {n}") }
+                }
+            }
+        }
+
+        pub fn simple(&mut self, c: &Simple) -> String {
+            let mut parts: Vec<String> = vec![];
+            match &c.a {
+                Assigns::None => {}
+                Assigns::Ok => parts.push("x=1".into()),
+                Assigns::Cs(n) => parts.push(format!("x=$(st {n})")),
+                Assigns::Err => parts.push(self.pick(&["ro=1", "x=1 ro=2", "x=${unset_u?}", "ro=${unset_u?}"]).to_string()),
+            }
+            let redir = match &c.r {
+                Redirs::None => None,
+                Redirs::Ok => Some(self.pick(&["</dev/null", "3</dev/null", "< /dev/null"]).to_string()),
+                Redirs::Cs(n) => Some(format!("<\"/dev/null$(st {n})\"")),
+                Redirs::Err => Some(self.pick(&["</nonexistent/f", "< /nonexistent/f", "3</nonexistent/f", "<&7", "</dev/null </nonexistent/f"]).to_string()),
+                Redirs::XErr => Some(self.pick(&["<${unset_u?}", "</dev/null${unset_u?}", "3<\"${unset_u?}\"", "</dev/null <${unset_u?}"]).to_string()),
+            };
+            let redir_first = redir.is_some() && self.rng.chance(1, 3);
+            if redir_first { parts.push(redir.clone().unwrap()); }
+            match &c.t {
+                Target::Absent => {}
+                Target::Ext(n) => parts.push(if *n == 126 { "/bin/xt_noexec".into() } else { self.pick(&["no_such_command_xyz", "/nonexistent/cmd"]).to_string() }),
+                Target::Fn(k, n) => parts.push(format!("h{k}{n}")),
+                Target::Bi(ty, b) => { let t = self.body(ty, b); parts.push(t) }
+            }
+            match &c.w {
+                Words::Ok => {}
+                Words::Cs(n) => parts.push(format!("$(st {n})")),
+                Words::Err => parts.push(self.pick(&["${unset_u?}", "\"${unset_u?}\"", "${unset_u:?msg}"]).to_string()),
+            }
+            if !redir_first { if let Some(r) = redir { parts.push(r); } }
+            if parts.is_empty() { parts.push("$(st 0)".into()); }
+            parts.join(" ")
+        }
+
+        fn stmt(&mut self, s: &Stmt) -> String {
+            match s {
+                Stmt::Plain(c) => self.simple(c),
+                Stmt::If(c, a, b) => format!("if {}; then probe {a}; else probe {b}; fi", self.simple(c)),
+                Stmt::Neg(c) => format!("! {}", self.simple(c)),
+                Stmt::And(c, m) => format!("{} && probe {m}", self.simple(c)),
+                Stmt::Or(c, m) => format!("{} || probe {m}", self.simple(c)),
+                Stmt::Sub(c, m) => format!("( {}; probe {m} )", self.simple(c)),
+                Stmt::Grp(r, m) => {
+                    let c = Simple { w: Words::Ok, t: Target::Absent, r: r.clone(), a: Assigns::None };
+                    let mut text = self.simple(&c);
+                    if matches!(r, Redirs::None) { text = String::new(); }
+                    let open = self.pick(&["{ probe M; }", "{ probe M\n}", "{\nprobe M; }"]);
+                    format!("{} {}", open.replace('M', &m.to_string()), text)
+                }
+            }
+        }
+        fn stmts(&mut self, v: &[Stmt]) -> String { v.iter().map(|s| self.stmt(s)).collect::<Vec<_>>().join("; ") }
+    }
+
+    pub const PROLOGUE: &str = "hst0() { probe 7; st 0; }\nhst1() { probe 7; st 1; }\nhst3() { probe 7; st 3; }\n\
+hret0() { probe 7; return 0; probe 8; }\nhret1() { probe 7; return 1; probe 8; }\nhret3() { probe 7; return 3; probe 8; }\n";
+
+    pub fn render(c: &Case) -> (String, Vec<(String, String)>) {
+        let mut r = Render { rng: Rng::new(c.seed ^ 0x5C), files: vec![] };
+        let mut out = String::from(PROLOGUE);
+        if c.errexit { out.push_str(r.pick(&["set -e\n", "set -o errexit\n"])); }
+        if let Some(t) = &c.trap {
+            let text = r.stmts(t);
+            assert!(!text.contains('\''));
+            out.push_str(&format!("trap '{}' EXIT\n", text));
+        }
+        for l in &c.lines {
+            match l {
+                Line::SynErr => out.push_str(r.pick(&["fi\n", ")\n", "st 0 && ;\n", "if then fi\n"])),
+                Line::Cmds(v) => { out.push_str(&r.stmts(v)); out.push('\n'); }
+            }
+        }
+        (out, r.files)
+    }
+
+    // ---------------------------------------------------------------------------------------------
+    // generator
+
+    pub struct Gen { pub rng: Rng, pub marker: u32, pub depth: u32 }
+    impl Gen {
+        fn m(&mut self) -> u32 { self.marker += 1; 10 + self.marker }
+        fn status(&mut self) -> u32 { *self.rng.pick(&[0, 0, 1, 3]) }
+        fn body(&mut self, ty: &'static str) -> Body {
+            let k = self.rng.below(100);
+            match ty {
+                "sp" => match k {
+                    0..=19 => Body::Res(*self.rng.pick(&[0, 0, 1])),
+                    20..=54 => Body::Rep(*self.rng.pick(&[1, 2])),
+                    55..=66 => Body::DotMissing,
+                    67..=72 if self.depth == 0 => { self.depth += 1; let c = self.simple(); self.depth -= 1; Body::Eval(Box::new(c)) }
+                    73..=78 if self.depth == 0 => { self.depth += 1; let c = self.simple(); self.depth -= 1; Body::Dot(Box::new(c)) }
+                    79..=83 => Body::EvalSyn,
+                    84..=87 => Body::DotSyn,
+                    88..=89 => Body::DotIoErr,
+                    90..=93 => Body::Resd(127, "abort"),
+                    _ => Body::Rep(1),
+                },
+                "ma" => match k {
+                    0..=29 => Body::Res(self.status()),
+                    30..=49 => Body::Rep(*self.rng.pick(&[1, 2])),
+                    50..=59 => Body::Probe(self.m()),
+                    _ => Body::Cmd(Box::new(self.body("sp"))),
+                },
+                _ => if k < 50 { Body::Res(self.status()) } else { Body::Rep(*self.rng.pick(&[1, 2])) },
+            }
+        }
+        pub fn simple(&mut self) -> Simple {
+            let w = match self.rng.below(100) { 0..=74 => Words::Ok, 75..=84 => Words::Cs(self.status()), _ => Words::Err };
+            let t = match self.rng.below(100) {
+                0..=11 => Target::Absent,
+                12..=19 => Target::Ext(*self.rng.pick(&[127, 126])),
+                20..=31 => Target::Fn(*self.rng.pick(&["st", "ret"]), *self.rng.pick(&[0, 1, 3])),
+                32..=61 => { let b = self.body("sp"); Target::Bi("sp", b) }
+                62..=84 => { let b = self.body("ma"); Target::Bi("ma", b) }
+                _ => { let ty = *self.rng.pick(&["el", "ex", "su"]); let b = self.body(ty); Target::Bi(ty, b) }
+            };
+            let r = match self.rng.below(100) { 0..=54 => Redirs::None, 55..=62 => Redirs::Ok, 63..=67 => Redirs::Cs(self.status()), 68..=87 => Redirs::Err, _ => Redirs::XErr };
+            let a = match self.rng.below(100) { 0..=59 => Assigns::None, 60..=71 => Assigns::Ok, 72..=79 => Assigns::Cs(self.status()), _ => Assigns::Err };
+            // a text inside `eval '…'` / a trap action must not need quotes of its own
+            Simple { w, t, r, a }
+        }
+        fn probe(&mut self) -> Stmt {
+            let m = self.m();
+            Stmt::Plain(Simple { w: Words::Ok, t: Target::Bi("ma", Body::Probe(m)), r: Redirs::None, a: Assigns::None })
+        }
+        fn stmt(&mut self) -> Stmt {
+            let c = self.simple();
+            match self.rng.below(100) {
+                0..=44 => Stmt::Plain(c),
+                45..=54 => { let (a, b) = (self.m(), self.m()); Stmt::If(c, a, b) }
+                55..=62 => Stmt::Neg(c),
+                63..=70 => { let m = self.m(); Stmt::And(c, m) }
+                71..=78 => { let m = self.m(); Stmt::Or(c, m) }
+                79..=90 => { let m = self.m(); Stmt::Sub(c, m) }
+                _ => { let m = self.m(); Stmt::Grp(c.r, m) }
+            }
+        }
+        pub fn case(&mut self, seed: u64) -> Case {
+            let interactive = self.rng.chance(1, 4);
+            let errexit = self.rng.chance(1, 2);
+            let trap = match self.rng.below(4) {
+                0 | 1 => None,
+                2 => Some(vec![Stmt::Plain(Simple { w: Words::Ok, t: Target::Bi("ma", Body::Probe(99)), r: Redirs::None, a: Assigns::None })]),
+                _ => {
+                    self.depth += 1; // no `eval '…'` inside the quoted action
+                    let s = self.stmt();
+                    self.depth -= 1;
+                    Some(vec![Stmt::Plain(Simple { w: Words::Ok, t: Target::Bi("ma", Body::Probe(99)), r: Redirs::None, a: Assigns::None }), s])
+                }
+            };
+            let nlines = 1 + self.rng.below(3);
+            let mut lines = vec![];
+            for k in 0..nlines {
+                if k > 0 && self.rng.chance(1, 8) { lines.push(Line::SynErr); continue; }
+                let mut v = vec![self.stmt()];
+                while self.rng.chance(1, 3) && v.len() < 3 { v.push(self.stmt()); }
+                v.push(self.probe());
+                lines.push(Line::Cmds(v));
+            }
+            let p = self.probe();
+            lines.push(Line::Cmds(vec![p]));
+            Case { seed, interactive, errexit, trap, lines }
+        }
+    }
+
+    // ---------------------------------------------------------------------------------------------
+    // runner: the shell on the virtual system, wired like `yverif::shell::run_with`, but the tail of
+    // `run_as_shell_process` is spelled out here so that the result of the read-eval loop and `$?`
+    // before the EXIT trap can be observed, and the interactive loop can be chosen.
+
+    /// built-ins of every `Type` whose body does what the case says: `res N` returns N, `rep N` reports an
+    /// error through `yash_builtin::common::report::report` with status N, `resd N abort|exit` returns N
+    /// with that divert
+    fn b_main(env: &mut VEnv, args: Vec<Field>) -> BuiltinFuture<'_> {
+        Box::pin(async move {
+            let kind = args.first().map(|f| f.value.clone()).unwrap_or_default();
+            let n: i32 = args.get(1).and_then(|f| f.value.parse().ok()).unwrap_or(0);
+            match kind.as_str() {
+                "rep" => {
+                    let mut report = Report::new();
+                    report.r#type = ReportType::Error;
+                    report.title = "planted error".into();
+                    yash_builtin::common::report::report(env, report, ExitStatus(n)).await
+                }
+                "resd" => {
+                    let d = match args.get(2).map(|f| f.value.as_str()) {
+                        Some("abort") => Divert::Abort(None),
+                        _ => Divert::Exit(None),
+                    };
+                    yash_env::builtin::Result::with_exit_status_and_divert(ExitStatus(n), Break(d))
+                }
+                _ => ExitStatus(n).into(),
+            }
+        })
+    }
+
+    pub struct Observed { pub stdout: Vec<u8>, pub div: String, pub pre: i32, pub status: i32, pub stuck: bool }
+
+    fn show_opt(e: Option<ExitStatus>) -> String { e.map(|e| e.0.to_string()).unwrap_or_else(|| "-".into()) }
+
+    /// the tail of `yash_cli::run_as_shell_process` (kept identical to it by tools/tables/errexit.py)
+    async fn sc_tail(env: &mut VEnv, source: &Source, interactive: bool) -> (String, i32, i32) {
+        let ref_env = RefCell::new(env);
+        let lexer = match prepare_input(&ref_env, source).await {
+            Ok(lexer) => lexer,
+            Err(_) => return ("NO-INPUT".into(), -1, 127),
+        };
+        let result = if interactive {
+            interactive_read_eval_loop(&ref_env, &mut { lexer }).await
+        } else {
+            read_eval_loop(&ref_env, &mut { lexer }).await
+        };
+        let env = ref_env.into_inner();
+        let div = match result {
+            Continue(()) => "cont".to_string(),
+            Break(Divert::Continue { count }) => format!("Continue:{count}"),
+            Break(Divert::Break { count }) => format!("Break:{count}"),
+            Break(Divert::Return(e)) => format!("Return:{}", show_opt(e)),
+            Break(Divert::Interrupt(e)) => format!("Interrupt:{}", show_opt(e)),
+            Break(Divert::Exit(e)) => format!("Exit:{}", show_opt(e)),
+            Break(Divert::Abort(e)) => format!("Abort:{}", show_opt(e)),
+        };
+        env.apply_result(result);
+        let pre = env.exit_status.0;
+        match result {
+            Continue(())
+            | Break(Divert::Continue { .. })
+            | Break(Divert::Break { .. })
+            | Break(Divert::Return(_))
+            | Break(Divert::Interrupt(_))
+            | Break(Divert::Exit(_)) => run_exit_trap(env).await,
+            Break(Divert::Abort(_)) => (),
+        }
+        (div, pre, env.exit_status.0)
+    }
+
+    pub fn run(script: String, files: Vec<(String, String)>, interactive: bool) -> Observed {
+        let system = VirtualSystem::new();
+        let state = Rc::clone(&system.state);
+        let executor = yash_executor::Executor::new();
+        state.borrow_mut().executor = Some(Rc::new(executor.spawner()));
+        let env = Env::with_system(Rc::new(Concurrent::new(system)));
+        let concurrent = Rc::clone(&env.system);
+        let result: Rc<Cell<Option<(String, i32, i32)>>> = Rc::new(Cell::new(None));
+        let result2 = Rc::clone(&result);
+        let state2 = Rc::clone(&state);
+        let main = async move {
+            let mut env = env;
+            let run = Run {
+                work: Work { source: Source::String(script), profile: InitFile::None, rcfile: InitFile::None },
+                options: vec![],
+                arg0: "yash".into(),
+                positional_params: vec![],
+            };
+            let work = configure_environment(&mut env, run).await;
+            env.builtins.extend(probe_builtins());
+            for (name, ty) in [("b_sp", Type::Special), ("b_ma", Type::Mandatory), ("b_el", Type::Elective),
+                               ("b_ex", Type::Extension), ("b_su", Type::Substitutive)] {
+                env.builtins.insert(name, Builtin::new(ty, b_main));
+            }
+            for path in ["/bin/b_su", "/bin/xt_noexec"] {
+                let mut inode = Inode::new(Vec::new());
+                inode.body = FileBody::Regular { content: vec![], is_native_executable: true };
+                inode.permissions.set(Mode::USER_EXEC, true);
+                state2.borrow_mut().file_system.save(path, Rc::new(RefCell::new(inode))).unwrap();
+            }
+            write_file(&state2, "/dev/null", b"");
+            for (path, content) in &files {
+                write_file(&state2, path, content.as_bytes());
+            }
+            {
+                let mut path = env.variables.get_or_new("PATH", Scope::Global);
+                let _ = path.assign("/nonexistent:/bin", None);
+            }
+            {
+                let mut ro = env.variables.get_or_new("ro", Scope::Global);
+                let _ = ro.assign("0", None);
+                ro.make_read_only(yash_syntax::source::Location::dummy("ro"));
+            }
+            let t = sc_tail(&mut env, &work.source, interactive).await;
+            result2.set(Some(t));
+        };
+        let runner = async move { concurrent.run_virtual(main).await };
+        // SAFETY: single-threaded, as in yash_env::test_helper::in_virtual_system
+        unsafe { executor.spawn_pinned(Box::pin(runner)) };
+        let mut rounds = 0usize;
+        let mut stuck = false;
+        let mut out = None;
+        loop {
+            executor.run_until_stalled();
+            if let Some(r) = result.take() { out = Some(r); break; }
+            rounds += 1;
+            let mut st = state.borrow_mut();
+            if let Some(next) = st.scheduled_wakers.next_wake_time() { st.advance_time(next); }
+            drop(st);
+            if executor.wake_count() == 0 || rounds > 50_000 { stuck = true; break; }
+        }
+        let stdout = yverif::shell::read_file(&state, "/dev/stdout").unwrap_or_default();
+        let (div, pre, status) = out.unwrap_or(("NONE".into(), -1, -1));
+        Observed { stdout, div, pre, status, stuck }
+    }
+
+    pub fn observe(c: &Case) -> String {
+        let (script, files) = render(c);
+        let o = run(script, files, c.interactive);
+        if o.stuck { return "TIMEOUT".into(); }
+        let mut trace = vec![];
+        for line in String::from_utf8_lossy(&o.stdout).lines() {
+            let Some((st, hex)) = line.split_once(':') else { return format!("GARBLED({line})"); };
+            let m = dec_str(hex).unwrap_or_default();
+            trace.push(format!("{m}:{st}"));
+        }
+        format!("trace={} div={} pre={} status={}", trace.join(","), o.div, o.pre, o.status)
+    }
+
+    pub fn run_case(case: &str) -> String {
+        match parse_case(case) {
+            Some(c) => {
+                yverif::proto::watch_case(case, 60);
+                yverif::proto::guarded(|| observe(&c))
+            }
+            None => "bad-case".into(),
+        }
+    }
+
+    /// docs/src/termination.md "Shell errors" read off the *syntax* of the command (the harness's own copy of
+    /// the table, independent of the Lean Spec): class and exit status of the first part that fails
+    fn body_error(special: bool, b: &Body) -> Option<(&'static str, u32)> {
+        match b {
+            Body::Res(_) | Body::Resd(..) | Body::Probe(_) | Body::DotIoErr => None,
+            Body::Rep(n) => if special && *n != 0 { Some(("special-builtin", *n)) } else { None },
+            Body::Cmd(inner) => body_error(false, inner),
+            Body::Eval(c) | Body::Dot(c) => shell_error(c),
+            Body::EvalSyn | Body::DotSyn => Some(("syntax", 2)),
+            Body::DotMissing => if special { Some(("special-builtin", 1)) } else { None },
+        }
+    }
+    pub fn shell_error(c: &Simple) -> Option<(&'static str, u32)> {
+        if matches!(c.w, Words::Err) { return Some(("assign-or-expansion", 2)); }
+        let assign = if matches!(c.a, Assigns::Err) { Some(("assign-or-expansion", 2)) } else { None };
+        match &c.t {
+            // no name: redirection errors "are reported but do not abort the command"
+            Target::Absent => assign,
+            Target::Bi(ty, b) => match c.r {
+                Redirs::XErr => Some(("assign-or-expansion", 2)),
+                Redirs::Err => Some((if *ty == "sp" { "special-builtin" } else { "redirection" }, 2)),
+                _ => assign.or_else(|| body_error(*ty == "sp", b)),
+            },
+            _ => match c.r {
+                Redirs::XErr => Some(("assign-or-expansion", 2)),
+                Redirs::Err => Some(("redirection", 2)),
+                _ => assign,
+            },
+        }
+    }
+
+    fn markers_simple(c: &Simple, out: &mut Vec<u32>) {
+        if let Target::Bi(_, b) = &c.t { markers_body(b, out); }
+    }
+    fn markers_body(b: &Body, out: &mut Vec<u32>) {
+        match b {
+            Body::Probe(m) => out.push(*m),
+            Body::Cmd(i) => markers_body(i, out),
+            Body::Eval(c) | Body::Dot(c) => markers_simple(c, out),
+            _ => {}
+        }
+    }
+    fn markers_stmt(s: &Stmt, out: &mut Vec<u32>) {
+        match s {
+            Stmt::Plain(c) | Stmt::Neg(c) => markers_simple(c, out),
+            Stmt::If(c, a, b) => { markers_simple(c, out); out.push(*a); out.push(*b); }
+            Stmt::And(c, m) | Stmt::Or(c, m) | Stmt::Sub(c, m) => { markers_simple(c, out); out.push(*m); }
+            Stmt::Grp(_, m) => out.push(*m),
+        }
+    }
+
+    /// the property's own statement on the real run, independent of the model:
+    /// (1) an EXIT action that starts with `probe 99` prints that marker exactly once unless the shell was
+    ///     aborted (`Divert::Abort`);
+    /// (2) when the first command of a non-interactive script has a shell error that the documentation says
+    ///     ends the shell (every class but a plain redirection error without errexit), nothing of the script
+    ///     runs after it and — with no EXIT action that could change it — the exit status is the error's
+    pub fn oracle(case: &str, obs: &str) -> String {
+        let Some(c) = parse_case(case) else { return "-".into() };
+        if !obs.starts_with("trace=") { return "-".into(); }
+        let trace = obs.strip_prefix("trace=").and_then(|s| s.split(' ').next()).unwrap_or("");
+        let entries: Vec<&str> = trace.split(',').filter(|e| !e.is_empty()).collect();
+        let mut verdict = "-".to_string();
+        if c.trap.is_some() {
+            let n = entries.iter().filter(|e| e.starts_with("99:")).count();
+            let aborted = obs.contains(" div=Abort");
+            if aborted && n != 0 { return "FAIL:exit-trap-ran-after-abort".into(); }
+            if !aborted && n != 1 { return format!("FAIL:exit-trap-ran-{n}-times"); }
+            verdict = "ok".into();
+        }
+        if c.interactive { return verdict; }
+        let Some(Line::Cmds(first)) = c.lines.first() else { return verdict };
+        let Some(Stmt::Plain(cmd)) = first.first() else { return verdict };
+        let Some((class, st)) = shell_error(cmd) else { return verdict };
+        if class == "redirection" && !c.errexit { return verdict; }
+        let mut script_markers = vec![];
+        for l in &c.lines {
+            if let Line::Cmds(v) = l { for s in v { markers_stmt(s, &mut script_markers); } }
+        }
+        for e in &entries {
+            let m: u32 = e.split(':').next().and_then(|m| m.parse().ok()).unwrap_or(0);
+            if script_markers.contains(&m) {
+                return format!("FAIL:ran-after-shell-error({class}):probe-{m}");
+            }
+        }
+        let plain_trap = match &c.trap { None => true, Some(v) => v.len() == 1 };
+        if plain_trap && !obs.ends_with(&format!(" status={st}")) {
+            return format!("FAIL:exit-status-after-shell-error({class}):expected-{st}");
+        }
+        "ok".into()
+    }
+}
+
 fn main() {
     quiet_panics();
     let o = Opts::from_args();
     if o.extra.first().map(|s| s.as_str()) == Some("--show") {
         let (fixed, _) = o.fixed_cases();
         for c in fixed {
-            if let Some((seed, lines)) = parse_case(&c) {
+            if let Some(sc) = sc::parse_case(&c) {
+                let (text, files) = sc::render(&sc);
+                println!("{text}");
+                for (p, t) in files {
+                    println!("# {p}: {}", t.trim_end());
+                }
+            } else if let Some((seed, lines)) = parse_case(&c) {
                 println!("{}", render(seed, &lines));
             }
         }
@@ -71,6 +805,11 @@ fn main() {
     }
     let (fixed, only) = o.fixed_cases();
     for c in &fixed {
+        if c.starts_with("sc ") {
+            let obs = sc::run_case(c);
+            emit(c, &obs, &sc::oracle(c, &obs));
+            continue;
+        }
         let obs = run_case(c);
         emit(c, &obs, &oracle_all(c, &obs, true));
     }
@@ -102,5 +841,19 @@ fn main() {
         let obs = run_case(&case);
         let with_real = k % (if o.thorough() { 40 } else { 10 }) == 0;
         emit(&case, &obs, &oracle_all(&case, &obs, with_real));
+    }
+    // the `sc` family: one structured simple command in context
+    let n = if o.thorough() { 200_000 } else { 8_000 };
+    let mut rng = Rng::new(o.seed ^ 0x5C10);
+    for k in 0..n {
+        let s = rng.next();
+        if k % o.shard.1 != o.shard.0 {
+            continue;
+        }
+        let mut g = sc::Gen { rng: Rng::new(s), marker: 0, depth: 0 };
+        let c = g.case(s % 1000);
+        let case = sc::sx_case(&c);
+        let obs = sc::run_case(&case);
+        emit(&case, &obs, &sc::oracle(&case, &obs));
     }
 }
